@@ -51,6 +51,13 @@ func (r Wrapper) handleS2SAccessTokenRequest(ctx context.Context, clientID strin
 			Description: "assertion parameter is invalid: " + err.Error(),
 		}
 	}
+	if len(pexEnvelope.Presentations) == 0 {
+		// without a presentation there's no proof of possession, audience, validity or nonce to check
+		return nil, oauth.OAuth2Error{
+			Code:        oauth.InvalidRequest,
+			Description: "assertion parameter is invalid: it contains no presentations",
+		}
+	}
 	submission, err := pe.ParsePresentationSubmission([]byte(submissionJSON))
 	if err != nil {
 		return nil, oauth.OAuth2Error{
